@@ -204,9 +204,14 @@ func (m *Manager) AddBinding(mac net.HardwareAddr, ipv4 net.IP) error {
 
 	macKey := macToUint64(mac)
 
-	binding := SubscriberBinding{
-		Mode: uint8(m.mode),
+	// Start from the existing binding so an IPv6 half set earlier is kept
+	var binding SubscriberBinding
+	if m.bindings != nil {
+		m.bindings.Lookup(&macKey, &binding)
 	}
+	binding.Mode = uint8(m.mode)
+	binding.IPv4Addr = 0
+	binding.IPv4Valid = 0
 
 	if ipv4 != nil {
 		ip4 := ipv4.To4()
